@@ -467,14 +467,17 @@ func genPktzCase(t *rapid.T) *PktzCase {
 			op.PayloadLen = biased(t, "plen", 1, maxLen, append([]int{1, 2, 3}, around(2, budget, budget+8, 2*budget, 3*budget)...)...)
 			op.Seed = rapid.Uint64().Draw(t, "pseed")
 			op.Samples = genU32(t, "samples")
-			// instants between 1970 and 2036
-			op.ClockNs = rapid.Int64Range(0, 2085978496*1_000_000_000-1).Draw(t, "clock")
+			// instants between 1970 and 2036 (NTP era 0) ...
+			const era1 = 2085978496 * 1_000_000_000 // 2036-02-07 06:28:16 UTC, where the 32-bit NTP seconds wrap
+			op.ClockNs = rapid.Int64Range(0, era1-1).Draw(t, "clock")
+			if rapid.IntRange(0, 3).Draw(t, "clockera1") == 2 {
+				// ... or later, up to what time.Time.UnixNano can express (2262): the 6.18 value only holds the
+				// seconds modulo 64 and is as well defined there
+				op.ClockNs = rapid.OneOf(rapid.Int64Range(era1, 1<<63-1-1_000_000_000_000), rapid.Int64Range(era1-3_000_000_000, era1+70_000_000_000)).Draw(t, "clocklate")
+			}
 			if prevClock >= 0 && rapid.IntRange(0, 2).Draw(t, "clocknear") == 0 {
 				// a realistic stream: the next frame a little later (or at the very same instant)
 				op.ClockNs = prevClock + rapid.SampledFrom([]int64{0, 1, 3814, 3815, 3816, 1_000_000, 33_333_333, 1_000_000_000, 64_000_000_000}).Draw(t, "clockstep")
-				if op.ClockNs >= 2085978496*1_000_000_000 {
-					op.ClockNs = prevClock
-				}
 			}
 			prevClock = op.ClockNs
 			if c.Payloader == "stub" {
@@ -493,7 +496,7 @@ func genPktzCase(t *rapid.T) *PktzCase {
 	return c
 }
 
-const ruleC06 = "rapid draws a packetizer configuration (MTU 64-65535 biased to 64,65,100,267,1200,1500; PT; SSRC; fixed sequencer with start biased to 65530-65535/0, random sequencer, or a Sequencer implemented by the harness (every number it hands out must appear on a packet); abs-send-time off or id 1-255 (one-byte form up to 14, two-byte form above; one operation in twelve calls EnableAbsSendTime again with another id or 0) with an injected clock (instants uniform in 1970-2036 or a small step after the previous call's, in the default or a fixed-offset zone; one case in eight injects no clock and brackets the value between the instants read right before and after the call); payloader in {G711,G722,Opus,VP8+-pid,VP9 flexible/non-flexible,H264+-STAP-A,H265+-DONL,AV1, scripted stub whose fragments may also be empty or nil}) and 1-10 operations Packetize(non-empty payload, samples)/Packetize(nil or empty payload: no packets, no trace)/SkipSamples/GeneratePadding(0-5, rarely 65535-65537); one op in six is 'steered': its sample count is computed at run time from the learned first timestamp so that the next timestamp is exactly 0xFFFFFFFF, 0 or 1. Oracle: spy on the payloader (fragments unchanged and in order), sequence/timestamp model (learned first values), fixed fields, marker, abs-send-time = exact 6.18 value of the injected instant, MarshalSize<=MTU, marshal/parse equality, padding packets valid padding-only RTP; every packet returned earlier still serialises to the same bytes after all later calls. Non-trivial = >=2 productive Packetize calls, one with >=2 packets, with a Skip/Padding before one of them; distinct = FNV-64 of the JSON case"
+const ruleC06 = "rapid draws a packetizer configuration (MTU 64-65535 biased to 64,65,100,267,1200,1500; PT; SSRC; fixed sequencer with start biased to 65530-65535/0, random sequencer, or a Sequencer implemented by the harness (every number it hands out must appear on a packet); abs-send-time off or id 1-255 (one-byte form up to 14, two-byte form above; one operation in twelve calls EnableAbsSendTime again with another id or 0) with an injected clock (instants uniform in 1970-2036, one in four in 2036-2262 (past the NTP era boundary) or within seconds of that boundary, or a small step after the previous call's, in the default or a fixed-offset zone; one case in eight injects no clock and brackets the value between the instants read right before and after the call); payloader in {G711,G722,Opus,VP8+-pid,VP9 flexible/non-flexible,H264+-STAP-A,H265+-DONL,AV1, scripted stub whose fragments may also be empty or nil}) and 1-10 operations Packetize(non-empty payload, samples)/Packetize(nil or empty payload: no packets, no trace)/SkipSamples/GeneratePadding(0-5, rarely 65535-65537); one op in six is 'steered': its sample count is computed at run time from the learned first timestamp so that the next timestamp is exactly 0xFFFFFFFF, 0 or 1. Oracle: spy on the payloader (fragments unchanged and in order), sequence/timestamp model (learned first values), fixed fields, marker, abs-send-time = exact 6.18 value of the injected instant, MarshalSize<=MTU, marshal/parse equality, padding packets valid padding-only RTP; every packet returned earlier still serialises to the same bytes after all later calls. Non-trivial = >=2 productive Packetize calls, one with >=2 packets, with a Skip/Padding before one of them; distinct = FNV-64 of the JSON case"
 
 func TestC06(t *testing.T) {
 	r := begin(t, "C06", "exploration", ruleC06)
